@@ -4,7 +4,7 @@ cd /verif
 [ -n "$(git -C /repo status --short)" ] && { echo "/repo working tree is not clean"; exit 1; }
 python3 tools/gen_manifest.py > /dev/null
 for p in $(python3 -c "import json; print(' '.join(c['property_id'] for c in json.load(open('MANIFEST.json'))['checks']))"); do
-  ./bin/check $p 2>&1 | grep -E "^(OK|VIOLATION|UNDECIDED|BOUNDED|KNOWN)" | cut -c1-110
+  VERIF_WRITE_BASELINE=1 ./bin/check $p 2>&1 | grep -E "^(OK|VIOLATION|UNDECIDED|BOUNDED|KNOWN)" | cut -c1-110
 done
 python3-vt - <<'PY'
 import json, jsonschema, glob
